@@ -10,6 +10,7 @@ import Goyang.Lemmas.IncludeAugRows
 import Goyang.Lemmas.IncludeAugIO
 import Goyang.Lemmas.IncludeAugDec
 import Goyang.Lemmas.IncludeAugShape
+import Goyang.Lemmas.IncludeAugSim
 /-
 C13, third sentence — "An included submodule contributes its data nodes, typedefs, groupings and
 identities to the including module exactly as if they were written there."
@@ -133,7 +134,10 @@ Sets WITH augment statements:
   split forest has the additional submodule trees and the other registry: `find` resolves prefixes through
   `byId` / `findModuleByPrefix` / `owner` of the registry, which have to be related for `R` and `R'`; C05's
   `LoadOrderAug.augment*_rel` needs an injective renaming and `Forest.ren` equality and does not apply — `σ` maps the
-  submodules' numbers to the owner's); (I, second half) `SameIO` of the two runs over the split set for sets WITH rpc /
+  submodules' numbers to the owner's; groundwork proved in Lemmas/IncludeAugSim.lean: `ren_eq` — the include layer's `ren σ`
+  IS C05's `Entry.ren σ`, so C05's `walkParts_ren` / `updateAt_ren` / `getAt_ren` / `ren_merge`, which need no injectivity,
+  apply to the other modules' trees — and `walkParts_path_sameTop` — on trees without rpc / action nodes `Find`'s step
+  loop reaches the same location in the owner's tree as in the unsplit module's, from any start); (I, second half) `SameIO` of the two runs over the split set for sets WITH rpc /
   action nodes (every pending augment is retried in the last, unproductive pass, so both runs create the same inputs /
   outputs — not proved).  (E) is closed; (I) is closed but for that.  Also not done: `NoIOStart` from a condition on the
   STATEMENTS (no rpc / action / input / output statement in the set): the closure schemes `Closed` / `ClosedT` give no
